@@ -198,7 +198,10 @@ pub fn run_child(ctx: &mut Ctx) {
             let inner = Arc::new(tp.external_run_async_task(async move { LocalClient::new(&xd, None) }).unwrap().unwrap());
             let client: Arc<dyn Client + Send + Sync> = Arc::new(LoggingClient { inner, log: log.clone() });
             take_events();
-            let cfg2 = config.clone();
+            // later sessions of a world sometimes run with the global-dedup policy `Never` (a legal configuration): the local
+            // shard cache must still be consulted (C11)
+            let mut cfg2 = config.clone();
+            if sno >= 1 && rng.chance(1, 3) { if let Ok(mut c) = Arc::try_unwrap(TranslatorConfig::local_config(&base).unwrap()) { c.shard_config.global_dedup_policy = data::configurations::GlobalDedupPolicy::Never; cfg2 = Arc::new(c); } ctx.stat("sessions_with_global_dedup_policy_never"); }
             let tp2 = tp.clone();
             let session = tp.external_run_async_task(async move { FileUploadSession::new_with_client(cfg2, tp2, client).await }).unwrap().unwrap();
             // the third session of a world re-uploads earlier files unchanged (C11)
